@@ -1,7 +1,6 @@
 package simrt
 
 import (
-	"reflect"
 	"runtime"
 	"unsafe"
 )
@@ -14,52 +13,68 @@ import (
 //	simrt.Close(ch);    close(ch)
 //
 // Only one task runs, so check-then-operate cannot race and the native
-// operation never blocks.  Closedness is tracked at Close; channels closed by
-// uninstrumented code (context.Done) are probed with a non-blocking receive,
-// which is safe because nothing is ever sent on them.
+// operation never blocks.  Length, capacity and closedness are read straight
+// from the runtime's channel header (layout verified at start-up), so channels
+// closed by uninstrumented code (context.Done) are handled like any other.
 
-type chanWaiter struct {
-	ch    reflect.Value
-	p     unsafe.Pointer
-	probe bool // Done()-style channel: closedness is probed
+// hchan mirrors the head of runtime.hchan (go1.26).
+type hchan struct {
+	qcount   uint
+	dataqsiz uint
+	buf      unsafe.Pointer
+	elemsize uint16
+	closed   uint32
 }
 
 //go:norace
-func chanPtr(v reflect.Value) unsafe.Pointer { return v.UnsafePointer() }
+func chanOf(ch any) *hchan {
+	return (*hchan)((*[2]unsafe.Pointer)(unsafe.Pointer(&ch))[1])
+}
+
+func init() {
+	c := make(chan int32, 3)
+	h := chanOf(c)
+	c <- 1
+	if h.qcount != 1 || h.dataqsiz != 3 || h.elemsize != 4 || h.closed != 0 {
+		panic("simrt: runtime.hchan layout changed; this toolchain is not supported")
+	}
+	close(c)
+	if h.closed == 0 {
+		panic("simrt: runtime.hchan layout changed; this toolchain is not supported")
+	}
+	var r <-chan int32 = c
+	if chanOf(r) != h {
+		panic("simrt: channel interface layout changed")
+	}
+}
+
+type chanWaiter struct{ h *hchan }
 
 //go:norace
-func (w *chanWaiter) simReady(t *Task) bool {
-	s := S
-	if w.p == nil {
+func (w chanWaiter) simReady(t *Task) bool {
+	if t.bkind == BKSend {
+		return sendReady(w.h)
+	}
+	return recvReady(w.h)
+}
+
+//go:norace
+func sendReady(h *hchan) bool {
+	if h == nil {
 		return false // nil channel blocks forever
 	}
-	if t.bkind == BKSend {
-		if s.closed.has(w.p) {
-			return true // the native send will panic, as it must
-		}
-		c := w.ch.Cap()
-		if c == 0 {
-			return false // unbuffered rendezvous is not supported (fail-closed elsewhere)
-		}
-		return w.ch.Len() < c
+	if h.closed != 0 {
+		return true // the native send panics, as it must
 	}
-	if w.ch.Len() > 0 || s.closed.has(w.p) {
-		return true
-	}
-	if w.probe {
-		return probeClosed(w.ch)
-	}
-	return false
+	return h.dataqsiz > 0 && h.qcount < h.dataqsiz
 }
 
 //go:norace
-func probeClosed(ch reflect.Value) bool {
-	// only for channels on which nothing is ever sent
-	chosen, _, recvOK := reflect.Select([]reflect.SelectCase{
-		{Dir: reflect.SelectRecv, Chan: ch},
-		{Dir: reflect.SelectDefault},
-	})
-	return chosen == 0 && !recvOK
+func recvReady(h *hchan) bool {
+	if h == nil {
+		return false
+	}
+	return h.qcount > 0 || h.closed != 0
 }
 
 // SendWait returns when a send on ch cannot block.
@@ -71,67 +86,35 @@ func SendWait(ch any) {
 		return
 	}
 	s.yield()
-	v := reflect.ValueOf(ch)
-	w := &chanWaiter{ch: v, p: chanPtr(v)}
-	s.cur.bkind = BKSend
-	if w.simReady(s.cur) {
-		s.cur.bkind = BKNone
+	h := chanOf(ch)
+	if sendReady(h) {
 		return
 	}
-	if w.p != nil && v.Cap() == 0 {
-		s.cur.bkind = BKNone
+	if h != nil && h.dataqsiz == 0 {
 		s.finish(VInternal, "unsupported", "send on an unbuffered channel (rendezvous is not simulated)")
-		goexit()
+		runtime.Goexit()
 	}
-	for {
-		s.block(BKSend, uintptr(w.p), w)
-		s.cur.bkind = BKSend
-		ok := w.simReady(s.cur)
-		s.cur.bkind = BKNone
-		if ok {
-			return
-		}
+	for !sendReady(h) {
+		s.block(BKSend, uintptr(unsafe.Pointer(h)), chanWaiter{h})
 	}
 }
 
 // RecvWait returns when a receive on ch cannot block.
 //
 //go:norace
-func RecvWait(ch any) { recvWait(ch, false) }
-
-// RecvWaitDone is RecvWait for context-style Done channels that are closed by
-// uninstrumented code.
-//
-//go:norace
-func RecvWaitDone(ch any) { recvWait(ch, true) }
-
-//go:norace
-func recvWait(ch any, probe bool) {
+func RecvWait(ch any) {
 	s := S
 	if s == nil || s.dead {
 		return
 	}
 	s.yield()
-	v := reflect.ValueOf(ch)
-	w := &chanWaiter{ch: v, p: chanPtr(v), probe: probe}
-	s.cur.bkind = BKRecv
-	ok := w.simReady(s.cur)
-	s.cur.bkind = BKNone
-	if ok {
-		return
-	}
-	for {
-		s.block(BKRecv, uintptr(w.p), w)
-		s.cur.bkind = BKRecv
-		ok := w.simReady(s.cur)
-		s.cur.bkind = BKNone
-		if ok {
-			return
-		}
+	h := chanOf(ch)
+	for !recvReady(h) {
+		s.block(BKRecv, uintptr(unsafe.Pointer(h)), chanWaiter{h})
 	}
 }
 
-// Close records that ch is being closed (the native close follows).
+// Close is the yield point in front of a native close.
 //
 //go:norace
 func Close(ch any) {
@@ -140,21 +123,23 @@ func Close(ch any) {
 		return
 	}
 	s.yield()
-	v := reflect.ValueOf(ch)
-	if p := chanPtr(v); p != nil {
-		s.closed.add(p)
-	}
 }
 
-// IsClosed reports whether ch was closed through Close (for oracles).
+// ChanClosed / ChanLen are for oracles.
 //
 //go:norace
-func IsClosed(ch any) bool {
-	s := S
-	if s == nil {
-		return false
+func ChanClosed(ch any) bool {
+	h := chanOf(ch)
+	return h != nil && h.closed != 0
+}
+
+//go:norace
+func ChanLen(ch any) int {
+	h := chanOf(ch)
+	if h == nil {
+		return 0
 	}
-	return s.closed.has(chanPtr(reflect.ValueOf(ch)))
+	return int(h.qcount)
 }
 
 // Select support: the instrumenter turns
@@ -164,50 +149,22 @@ func IsClosed(ch any) bool {
 // into a switch on simrt.Select(hasDefault, simrt.SendCase(c1), simrt.RecvCase(c2))
 // whose arms perform the chosen native operation first.
 type SelCase struct {
-	ch   reflect.Value
-	p    unsafe.Pointer
+	h    *hchan
 	send bool
-	probe bool
 }
 
 //go:norace
-func SendCase(ch any) SelCase {
-	v := reflect.ValueOf(ch)
-	return SelCase{ch: v, p: chanPtr(v), send: true}
-}
+func SendCase(ch any) SelCase { return SelCase{h: chanOf(ch), send: true} }
 
 //go:norace
-func RecvCase(ch any) SelCase {
-	v := reflect.ValueOf(ch)
-	return SelCase{ch: v, p: chanPtr(v)}
-}
+func RecvCase(ch any) SelCase { return SelCase{h: chanOf(ch)} }
 
 //go:norace
-func RecvCaseDone(ch any) SelCase {
-	v := reflect.ValueOf(ch)
-	return SelCase{ch: v, p: chanPtr(v), probe: true}
-}
-
-//go:norace
-func (c *SelCase) ready() bool {
-	s := S
-	if c.p == nil {
-		return false
-	}
+func (c SelCase) ready() bool {
 	if c.send {
-		if s.closed.has(c.p) {
-			return true
-		}
-		cp := c.ch.Cap()
-		return cp > 0 && c.ch.Len() < cp
+		return sendReady(c.h)
 	}
-	if c.ch.Len() > 0 || s.closed.has(c.p) {
-		return true
-	}
-	if c.probe {
-		return probeClosed(c.ch)
-	}
-	return false
+	return recvReady(c.h)
 }
 
 type selWaiter struct{ cases []SelCase }
@@ -228,7 +185,6 @@ func (w *selWaiter) simReady(*Task) bool {
 func Select(hasDefault bool, cases ...SelCase) int {
 	s := S
 	if s == nil || s.dead {
-		// without a simulator the instrumented code is not used
 		return -1
 	}
 	s.yield()
@@ -249,10 +205,12 @@ func Select(hasDefault bool, cases ...SelCase) int {
 		if hasDefault {
 			return -1
 		}
-		w := &selWaiter{cases: cases}
-		s.block(BKRecv, 0, w)
+		for _, c := range cases {
+			if c.send && c.h != nil && c.h.dataqsiz == 0 && c.h.closed == 0 {
+				s.finish(VInternal, "unsupported", "select send on an unbuffered channel")
+				runtime.Goexit()
+			}
+		}
+		s.block(BKRecv, 0, &selWaiter{cases: cases})
 	}
 }
-
-//go:norace
-func goexit() { runtime.Goexit() }
